@@ -422,6 +422,7 @@ func Run(c *engine.Ctx) {
 	rw.SilenceStdout()
 	cdxInputs(c)
 	spdxInputs(c)
+	spdxReferenceGraphs(c)
 	realInputs(c)
 	parseHistory(c)
 	identifiers(c)
@@ -935,5 +936,62 @@ func identifiers(c *engine.Ctx) {
 			return engine.Violate("identifier-unsafe", "", "NewNodeIdentifier() = %q", id)
 		}
 		return nil
+	})
+}
+
+// SPDXReferenceGraphs enumerates SPDX 2.3 documents over three elements (packages a and b, file c) with every
+// relationship list of <= maxRel entries over {CONTAINS, CONTAINED_BY, DEPENDS_ON, DESCRIBES} x endpoints
+// {a, b, c, DOCUMENT} and documentDescribes in {absent, [a]}: cycles of every length, self loops, mutual containment,
+// documents without a declared root. Shared with C04 (totality of the parser on reference structures).
+func SPDXReferenceGraphs(maxRel int, yield func(desc map[string]any, text string, ids map[string]int, resolve bool)) {
+	els := []spdxEl{{"a", false}, {"b", false}, {"c", true}}
+	var alpha []spdxRel
+	for _, a := range []string{"a", "b", "c", "DOCUMENT"} {
+		for _, ty := range []string{"CONTAINS", "CONTAINED_BY", "DEPENDS_ON", "DESCRIBES"} {
+			for _, b := range []string{"a", "b", "c"} {
+				if a == "DOCUMENT" && ty != "DESCRIBES" {
+					continue
+				}
+				alpha = append(alpha, spdxRel{a, ty, b})
+			}
+		}
+	}
+	var rec func(cur []spdxRel)
+	rec = func(cur []spdxRel) {
+		for _, desc := range [][]string{nil, {"a"}} {
+			for _, hf := range []bool{false, true} {
+				root, ids, resolve := spdxDoc(els, cur, desc, hf)
+				yield(map[string]any{"relationships": append([]spdxRel{}, cur...), "documentDescribes": desc, "hasFiles": hf}, root.String(), ids, resolve)
+			}
+		}
+		if len(cur) == maxRel {
+			return
+		}
+		for _, r := range alpha {
+			rec(append(cur, r))
+		}
+	}
+	rec(nil)
+}
+
+func spdxReferenceGraphs(c *engine.Ctx) {
+	c.Group("spdx-reference-graphs")
+	maxRel := 2
+	if c.Thorough() {
+		maxRel = 3
+	}
+	c.Bound("spdx-reference-graphs", fmt.Sprintf("packages a, b and file c; every relationship list of <=%d over {CONTAINS, CONTAINED_BY, DEPENDS_ON, DESCRIBES} x endpoints {a,b,c,DOCUMENT} x documentDescribes {absent,[a]} x hasFiles", maxRel))
+	SPDXReferenceGraphs(maxRel, func(desc map[string]any, text string, ids map[string]int, resolve bool) {
+		if c.Expired() {
+			return
+		}
+		c.Case(func() any { return desc }, func(t *engine.T) *engine.Violation {
+			ls := []layout{{Name: "as generated", Text: text}}
+			if v := judge(t, ls, formats.SPDX23JSON, ids, resolve, true); v != nil {
+				return v
+			}
+			t.State(text)
+			return nil
+		})
 	})
 }
